@@ -281,9 +281,13 @@ cJSON *change_state(const struct peer *p, const cJSON *request)
 
 	cJSON_Delete(e->value);
 	e->value = value_copy;
-	if (unlikely(notify_fetchers(e, "change") != 0)) {
-		return create_error_response_from_request(p, request, INTERNAL_ERROR, "could not notify fetching peer", path);
-	}
+	/*
+	 * From here on the change is in effect and every subscriber that can be
+	 * reached is told about it. A subscriber that cannot be notified harms
+	 * only itself; answering the owner with an error would claim that the
+	 * state kept its old value.
+	 */
+	notify_fetchers(e, "change");
 
 	return create_success_response_from_request(p, request);
 }
